@@ -151,3 +151,16 @@ contract(f"{U}.__deepcopy__", params={"self": "Ref[PlainUnit]", "memo": "Opaque"
                   "units_equal": "forall[Str](lambda k: view(result._units)[k] == view(self._units)[k])",
                   "untouched": "self._units == old(self._units)"},
          modifies=[], props=["C18"])
+
+contract(f"{Q}.m", params={"self": "Ref[PlainQuantity]"}, returns="Num", pure=True,
+         ensures={"def": "result == self._magnitude"}, modifies=[], props=["C18"])
+contract(f"{Q}.to_tuple", params={"self": "Ref[PlainQuantity]"}, returns="Tuple[Num,Seq[Tuple[Str,Num]]]",
+         requires={"alloc": "allocated(self) and allocated(self._units) and allocated(self._units._d)"},
+         ensures={"magnitude": "result[0] == self._magnitude",
+                  # the second component lists exactly the (name, exponent) items of the units, each name once
+                  "items_sound": "forall[Int](lambda i: implies(0 <= i and i < len(result[1]), result[1][i][0] in self._units._d "
+                                 "and result[1][i][1] == view(self._units)[result[1][i][0]]))",
+                  "items_complete": "len(result[1]) == len(self._units._d)",
+                  "items_distinct": "forall[Int,Int](lambda i, j: implies(0 <= i and i < j and j < len(result[1]), result[1][i][0] != result[1][j][0]))",
+                  "untouched": "self._magnitude == old(self._magnitude) and self._units == old(self._units)"},
+         modifies=[], props=["C18"])
